@@ -442,7 +442,7 @@ class RandomSource:
                 elif r < 0.30:
                     yield {"e": "tick", "d": rng.choice([0, 1, 1, 2, 3, 5, 8, 13])}
                 elif r < 0.34 and self.timed:
-                    yield {"e": "setdur", "s": rng.choice(self.timed), "d": rng.choice([1, 2, 4, 96, 40, 64, 128])}
+                    yield {"e": "setdur", "s": rng.choice(self.timed), "d": rng.choice([1, 2, 4, 96, 40, 64, 128, 1, 2, 64, -3, -64])}
                 else:
                     yield {"e": "aiter"}
                     if self.style == "steady":
@@ -492,7 +492,7 @@ class RandomSource:
             elif r < p_eng + 0.30:
                 yield {"e": "tick", "d": rng.choice([0, 1, 1, 2, 3, 5, 8, 13, 40])}
             elif r < p_eng + 0.34 and self.timed:
-                yield {"e": "setdur", "s": rng.choice(self.timed), "d": rng.choice([1, 2, 4, 96, 40, 64, 128])}
+                yield {"e": "setdur", "s": rng.choice(self.timed), "d": rng.choice([1, 2, 4, 96, 40, 64, 128, 1, 2, 64, -3, -64])}
             else:
                 yield {"e": "execute"}
 
